@@ -63,6 +63,18 @@ Hypothesis HQ_upd : forall m l rr new m', MolWF m -> (l < rr)%nat -> (rr < natom
 Hypothesis HQ_ring : forall m l rr order sa sb pl pr m', MolWF m -> (l < rr)%nat -> (rr < natoms m)%nat -> 1 <= order <= 3 ->
   has_bond m l rr = false -> add_ring_bond m l rr order sa sb pl pr = Ok m' -> Q m'.
 
+(* a second invariant, which need only hold between the steps of the derivation: an atom is added either as a root,
+   or together with the bond from its parent (instantiated in DecoderTree.v) *)
+Variable Q2 : dmol -> Prop.
+Hypothesis HQ2_0 : Q2 empty_mol.
+Hypothesis HQ2_root : forall m a cap at_, MolWF m -> Q2 m -> Q2 (fst (add_atom m a cap at_ true)).
+Hypothesis HQ2_step : forall m a cap at_ p mu st at2 m3, MolWF m -> Q2 m -> (p < natoms m)%nat -> 1 <= mu <= 3 ->
+  add_bond (fst (add_atom m a cap at_ false)) p (natoms m) mu st at2 = Ok m3 -> Q2 m3.
+Hypothesis HQ2_upd : forall m l rr new m', MolWF m -> Q2 m -> (l < rr)%nat -> (rr < natoms m)%nat -> 1 <= new <= 3 ->
+  update_bond_order m l rr new = Ok m' -> Q2 m'.
+Hypothesis HQ2_ring : forall m l rr order sa sb pl pr m', MolWF m -> Q2 m -> (l < rr)%nat -> (rr < natoms m)%nat -> 1 <= order <= 3 ->
+  has_bond m l rr = false -> add_ring_bond m l rr order sa sb pl pr = Ok m' -> Q2 m'.
+
 Lemma wf_empty : MolWF empty_mol.
 Proof.
   constructor; cbn; try reflexivity.
@@ -271,7 +283,7 @@ Proof. intros H R. eapply Forall_impl; [|exact R]. intros r (A & B & C). repeat 
 
 Definition Post (ts : toks) (m : dmol) (state : Z) (prev : prev_atom) (r : toks * dmol * list ringreq * nat) : Prop :=
   let '(ts', m', rings', _) := r in
-  MolWF m' /\ RingsOK m' rings' /\ Frame m prev state m' /\ exists pre, ts = pre ++ ts'.
+  MolWF m' /\ RingsOK m' rings' /\ Frame m prev state m' /\ (exists pre, ts = pre ++ ts') /\ Q2 m'.
 
 Definition Good (ts : toks) (m : dmol) (state : Z) (prev : prev_atom) (x : res (toks * dmol * list ringreq * nat)) : Prop :=
   match x with Ok r => Post ts m state prev r | Err e => e = DecoderError end.
@@ -279,8 +291,8 @@ Definition Good (ts : toks) (m : dmol) (state : Z) (prev : prev_atom) (x : res (
 Lemma Good_suffix ts0 ts m state prev x : (exists pre, ts0 = pre ++ ts) -> Good ts m state prev x -> Good ts0 m state prev x.
 Proof.
   intros [pre0 ->] H. destruct x as [[[[ts' m'] rings'] nd']|e]; [|exact H].
-  unfold Good, Post in *. destruct H as (A & B & C & pre & ->).
-  split; [exact A|]. split; [exact B|]. split; [exact C|]. exists (pre0 ++ pre). now rewrite app_assoc.
+  unfold Good, Post in *. destruct H as (A & B & C & (pre & ->) & D).
+  split; [exact A|]. split; [exact B|]. split; [exact C|]. split; [|exact D]. exists (pre0 ++ pre). now rewrite app_assoc.
 Qed.
 
 Section DeriveInv.
@@ -304,12 +316,12 @@ Proof.
   - unfold raise_or. destruct Hbad as [->| ->]; [|reflexivity]. exists ts. now rewrite app_nil_r.
 Qed.
 
-Lemma finish_good ts m state prev rings maxd nd : MolWF m -> RingsOK m rings -> 0 <= state ->
+Lemma finish_good ts m state prev rings maxd nd : MolWF m -> Q2 m -> RingsOK m rings -> 0 <= state ->
   Good ts m state prev (do (ts', nd') <- drain ts bad maxd nd; Ok (ts', m, rings, nd')).
 Proof.
-  intros Hm Hr Hs. pose proof (drain_good ts maxd nd) as D.
+  intros Hm Hq2 Hr Hs. pose proof (drain_good ts maxd nd) as D.
   destruct (drain ts bad maxd nd) as [[ts' nd']|e]; cbn [bind Good]; [|exact D].
-  unfold Post. split; [exact Hm|]. split; [exact Hr|]. split; [now apply Frame_refl|exact D].
+  unfold Post. split; [exact Hm|]. split; [exact Hr|]. split; [now apply Frame_refl|]. split; [exact D|exact Hq2].
 Qed.
 
 Lemma read_index_good : forall n ts acc k,
@@ -372,7 +384,7 @@ Lemma Good_step ts rest m state prev m1 state1 prev1 x :
 Proof.
   intros Hs Hf H. apply (Good_suffix ts rest); [exact Hs|].
   destruct x as [[[[ts' m'] rings'] nd']|e]; [|exact H].
-  unfold Good, Post in *. destruct H as (A & B & C & D). auto.
+  unfold Good, Post in *. destruct H as (A & B & C & D & E). auto.
 Qed.
 
 Section DeriveMain.
@@ -390,10 +402,10 @@ Lemma toks_ok_suffix pre ts : toks_ok (pre ++ ts) -> toks_ok ts.
 Proof. intro H. apply Forall_app in H. tauto. Qed.
 
 Lemma derive_good : forall fuel ts m maxd state prev rings astack nd,
-  (length ts < fuel)%nat -> MolWF m -> RingsOK m rings -> StOK m state prev -> toks_ok ts ->
+  (length ts < fuel)%nat -> MolWF m -> Q2 m -> RingsOK m rings -> StOK m state prev -> toks_ok ts ->
   Good ts m state prev (derive T bad aidx fuel ts m maxd state prev rings astack nd).
 Proof.
-  induction fuel as [|f IH]; intros ts m maxd state prev rings astack nd Hlen Hm Hr Hst Htok; [lia|].
+  induction fuel as [|f IH]; intros ts m maxd state prev rings astack nd Hlen Hm Hq2 Hr Hst Htok; [lia|].
   destruct Hst as [Hs0 Hsp].
   unfold derive. cbn [derive_c]. cbv zeta.
   destruct (negb (below nd maxd)); [now apply (finish_good bad Hbad)|].
@@ -408,7 +420,7 @@ Proof.
               Good ((idx, sym) :: rest) m state prev
                 (derive_c (get_bonding_capacity T) bad aidx f rest m maxd st' prev rings astack' nd')).
     { intros st' nd' astack' Hst' Hpos. eapply Good_step; [exact Hsuf| |].
-      2:{ apply (IH rest m maxd st' prev rings astack' nd' Hl Hm Hr); [|exact Hrest].
+      2:{ apply (IH rest m maxd st' prev rings astack' nd' Hl Hm Hq2 Hr); [|exact Hrest].
           split; [lia|]. intro Hp0. destruct (Hsp (Hpos Hp0)) as (p & E & L & V). exists p. repeat split; auto; lia. }
       intros m' Fm. eapply Frame_weaken; [|exact Fm]. lia. }
     destruct (is_branch_like sym).
@@ -428,13 +440,13 @@ Proof.
         assert (Htok2 : toks_ok rest2) by (rewrite Hpre2 in Hrest; now apply toks_ok_suffix in Hrest).
         (* the branch instance *)
         pose proof (IH rest2 m (Some (N.to_nat (get_index_from_selfies syms) + 1)%nat) binit prev rings
-                       (push_attr astack ((idx + aidx)%nat, sym)) 0%nat Hl2 Hm Hr) as Sub.
+                       (push_attr astack ((idx + aidx)%nat, sym)) 0%nat Hl2 Hm Hq2 Hr) as Sub.
         assert (StSub : StOK m binit prev).
         { split; [lia|]. intros _. exists p. repeat split; auto. lia. }
         specialize (Sub StSub Htok2). unfold derive in Sub.
         destruct (derive_c (get_bonding_capacity T) bad aidx f rest2 m _ binit prev rings _ 0)
           as [[[[rest3 m2] rings2] nsub]|e]; cbn [bind]; [|exact Sub].
-        unfold Good, Post in Sub. destruct Sub as (Hm2 & Hr2 & F2 & pre3 & Hpre3).
+        unfold Good, Post in Sub. destruct Sub as (Hm2 & Hr2 & F2 & (pre3 & Hpre3) & Hq22).
         assert (Hl3 : (length rest3 < f)%nat) by (rewrite Hpre3, app_length in Hl2; lia).
         assert (Htok3 : toks_ok rest3) by (rewrite Hpre3 in Htok2; now apply toks_ok_suffix in Htok2).
         destruct F2 as (A2 & B2 & C2 & D2).
@@ -442,7 +454,7 @@ Proof.
         + exists ((idx, sym) :: pre2 ++ pre3). cbn. rewrite Hpre2, Hpre3, app_assoc. reflexivity.
         + intros m' Fm. replace state with (binit + nstate) by lia.
           eapply Frame_seq; [|exact Fm]. repeat split; assumption.
-        + apply (IH rest3 m2 maxd nstate prev rings2 astack _ Hl3 Hm2 Hr2); [|exact Htok3].
+        + apply (IH rest3 m2 maxd nstate prev rings2 astack _ Hl3 Hm2 Hq22 Hr2); [|exact Htok3].
           split; [lia|]. intros _. exists p. split; [exact Ep|]. split; [lia|].
           rewrite (B2 p Lp). specialize (D2 p Ep Lp). lia. }
     destruct (is_ring_like sym).
@@ -474,7 +486,7 @@ Proof.
         destruct nstate as [st|].
         + destruct Hns as [-> Hst].
           eapply Good_step; [exact Hsuf2| |].
-          2:{ apply (IH rest2 m maxd (state - rorder) (PAtom p) (rings ++ [rq]) astack _ Hl2 Hm Hr'); [|exact Htok2].
+          2:{ apply (IH rest2 m maxd (state - rorder) (PAtom p) (rings ++ [rq]) astack _ Hl2 Hm Hq2 Hr'); [|exact Htok2].
               split; [lia|]. intros _. exists p. repeat split; auto. lia. }
           intros m' Fm. eapply Frame_weaken; [|exact Fm]. lia.
         + eapply Good_suffix; [exact Hsuf2|]. now apply (finish_good bad Hbad). }
@@ -501,13 +513,15 @@ Proof.
         rewrite Ea in Hm2, Ob, Fa. cbn [fst snd] in Hm2, Ob, Fa. cbv zeta in Ob, Fa.
         destruct Ob as (N2 & Oold & Ocnt & Ocap). destruct Fa as (Ei & _).
         assert (Hr2 : RingsOK m2 rings) by (eapply RingsOK_ext; [|exact Hr]; lia).
+        assert (Hq2' : Q2 m2).
+        { replace m2 with (fst (add_atom m a cap (push_attr astack ((idx + aidx)%nat, sym)) true)) by now rewrite Ea. now apply HQ2_root. }
         assert (FR : forall st m', Frame m2 (PAtom (natoms m)) st m' -> Frame m prev state m').
         { intros st m' Fm. replace m2 with (fst (add_atom m a cap (push_attr astack ((idx + aidx)%nat, sym)) true)) in Fm by now rewrite Ea.
           eapply Frame_root; eassumption. }
         destruct nstate as [st|].
         -- destruct Hns as [-> Hst]. subst i.
            eapply Good_step; [exact Hsuf|apply FR|].
-           apply (IH rest m2 maxd (cap - 0) (PAtom (natoms m)) rings astack _ Hl Hm2 Hr2); [|exact Hrest].
+           apply (IH rest m2 maxd (cap - 0) (PAtom (natoms m)) rings astack _ Hl Hm2 Hq2' Hr2); [|exact Hrest].
            split; [lia|]. intros _. exists (natoms m). repeat split; auto; lia.
         -- eapply Good_step with (m1 := m2) (state1 := 0) (prev1 := PAtom (natoms m)); [exact Hsuf|apply FR|].
            now apply (finish_good bad Hbad).
@@ -532,6 +546,9 @@ Proof.
       assert (N3 : natoms m3 = S (natoms m)) by (unfold natoms in *; now rewrite Eat3).
       assert (Hcap3 : forall j, capOf m3 j = capOf m2 j) by (intro j; unfold capOf; now rewrite Eat3).
       assert (Hr3 : RingsOK m3 rings) by (eapply RingsOK_ext; [|exact Hr]; lia).
+      assert (Hq3 : Q2 m3).
+      { apply (HQ2_step m a cap (push_attr astack ((idx + aidx)%nat, sym)) p mu stereo (push_attr astack ((idx + aidx)%nat, sym)) m3 Hm Hq2 Lp ltac:(lia)).
+        rewrite Ea. exact Eb. }
       assert (FB : forall st m', Frame m3 (PAtom (natoms m)) st m' -> Frame m (PAtom p) state m').
       { intros st m' Fm. eapply (Frame_bond m m3 p (natoms m) mu); try eassumption; try lia; try reflexivity.
         - intros j Hj. rewrite Hcap3. now apply Oold.
@@ -540,7 +557,7 @@ Proof.
       destruct nstate as [st|].
       * destruct Hns as [-> Hst].
         eapply Good_step; [exact Hsuf|apply FB|].
-        apply (IH rest m3 maxd (cap - mu) (PAtom (natoms m)) rings astack _ Hl Hm3 Hr3); [|exact Hrest].
+        apply (IH rest m3 maxd (cap - mu) (PAtom (natoms m)) rings astack _ Hl Hm3 Hq3 Hr3); [|exact Hrest].
         split; [lia|]. intros _. exists (natoms m). split; [reflexivity|]. split; [lia|].
         rewrite Hcnt3, Hcap3, Nat.eqb_refl, orb_true_r, Ocnt, Ocap. lia.
       * eapply Good_step with (m1 := m3) (state1 := 0) (prev1 := PAtom (natoms m)); [exact Hsuf|apply FB|].
@@ -610,18 +627,18 @@ Proof.
   cbn [andb]. assert (X : (j <? length (adj m))%nat = true) by (apply Nat.ltb_lt; exact Hi). now rewrite X.
 Qed.
 
-Lemma form_ring_good m made r : MolWF m -> MadeOK m made ->
+Lemma form_ring_good m made r : MolWF m -> Q2 m -> MadeOK m made ->
   (r_l r <= r_r r)%nat -> (r_r r < natoms m)%nat -> 1 <= r_order r <= 3 ->
   match form_ring (Ok (m, made)) r with
-  | Ok (m', made') => MolWF m' /\ MadeOK m' made' /\ atoms m' = atoms m /\ roots m' = roots m
+  | Ok (m', made') => MolWF m' /\ MadeOK m' made' /\ atoms m' = atoms m /\ roots m' = roots m /\ Q2 m'
   | Err _ => False end.
 Proof.
-  intros Hm [Hml Hmade] Hlr Hrn Ho. unfold form_ring. cbn [bind]. cbv zeta.
-  destruct (Nat.eqb_spec (r_l r) (r_r r)) as [E|Hne]; [split; [exact Hm|split; [split; [exact Hml|exact Hmade]|split; reflexivity]]|].
+  intros Hm Hq2 [Hml Hmade] Hlr Hrn Ho. unfold form_ring. cbn [bind]. cbv zeta.
+  destruct (Nat.eqb_spec (r_l r) (r_r r)) as [E|Hne]; [split; [exact Hm|split; [split; [exact Hml|exact Hmade]|split; [reflexivity|split; [reflexivity|exact Hq2]]]]|].
   assert (Hl : (r_l r < natoms m)%nat) by lia.
   destruct (get_ok m (r_l r) Hm Hl) as [-> ->]. destruct (get_ok m (r_r r) Hm Hrn) as [-> ->]. cbn [bind].
   set (l := r_l r) in *. set (rr := r_r r) in *.
-  destruct ((capOf m l - cnt m l <=? 0) || (capOf m rr - cnt m rr <=? 0)) eqn:Efree; [split; [exact Hm|split; [split; [exact Hml|exact Hmade]|split; reflexivity]]|].
+  destruct ((capOf m l - cnt m l <=? 0) || (capOf m rr - cnt m rr <=? 0)) eqn:Efree; [split; [exact Hm|split; [split; [exact Hml|exact Hmade]|split; [reflexivity|split; [reflexivity|exact Hq2]]]]|].
   apply orb_false_iff in Efree as [F1 F2]. apply Z.leb_gt in F1, F2.
   set (order := Z.min (Z.min (r_order r) (capOf m l - cnt m l)) (capOf m rr - cnt m rr)).
   assert (Hord : 1 <= order <= 3) by (unfold order; lia).
@@ -639,7 +656,7 @@ Proof.
     assert (X1 : (1 <=? new) && (new <=? 3) = true) by (apply andb_true_iff; split; apply Z.leb_le; lia).
     rewrite X1. cbn [negb]. replace (Nat.min l rr) with l by lia. replace (Nat.max l rr) with rr by lia.
     rewrite Ef0.
-    destruct (Z.eqb_spec new (b_order e)) as [En|Hnn]; cbn [bind]; [split; [exact Hm|split; [split; [exact Hml|exact Hmade]|split; reflexivity]]|].
+    destruct (Z.eqb_spec new (b_order e)) as [En|Hnn]; cbn [bind]; [split; [exact Hm|split; [split; [exact Hml|exact Hmade]|split; [reflexivity|split; [reflexivity|exact Hq2]]]]|].
     assert (Hdelta : new - b_order e <= order) by (unfold new; lia).
     destruct (b_ring e) eqn:Ering.
     + destruct (find_some_dst (row m rr) l) as [e2 Ee2].
@@ -672,7 +689,11 @@ Proof.
       assert (Hrows_dst : forall j i, (exists x, In x (row m j) /\ b_dst x = i) -> exists x, In x (row m' j) /\ b_dst x = i).
       { intros j i Hx. rewrite Hrow. destruct (Nat.eqb j l); [now apply set_order_keeps_dst|].
         destruct (Nat.eqb j rr); [now apply set_order_keeps_dst|exact Hx]. }
-      split; [|split; [|split; reflexivity]].
+      assert (Eop : update_bond_order m l rr new = Ok m').
+      { unfold update_bond_order. rewrite X1. cbn [negb].
+        replace (Nat.min l rr) with l by lia. replace (Nat.max l rr) with rr by lia. rewrite Ef0.
+        destruct (Z.eqb_spec new (b_order e)); [contradiction|]. rewrite Ering, Ee2'. reflexivity. }
+      split; [|split; [|split; [reflexivity|split; [reflexivity|exact (HQ2_upd m l rr new m' Hm Hq2 ltac:(lia) Hrn Hnew Eop)]]]].
       * constructor.
         -- unfold m'. cbn [adj atoms natoms]. now rewrite !upd_length.
         -- unfold m'. cbn [counts atoms natoms]. now rewrite !upd_length.
@@ -717,7 +738,11 @@ Proof.
         - reflexivity. }
       assert (Hrows_dst : forall j i, (exists x, In x (row m j) /\ b_dst x = i) -> exists x, In x (row m' j) /\ b_dst x = i).
       { intros j i Hx. rewrite Hrow. destruct (Nat.eqb j l); [now apply set_order_keeps_dst|exact Hx]. }
-      split; [|split; [|split; reflexivity]].
+      assert (Eop : update_bond_order m l rr new = Ok m').
+      { unfold update_bond_order. rewrite X1. cbn [negb].
+        replace (Nat.min l rr) with l by lia. replace (Nat.max l rr) with rr by lia. rewrite Ef0.
+        destruct (Z.eqb_spec new (b_order e)); [contradiction|]. rewrite Ering. reflexivity. }
+      split; [|split; [|split; [reflexivity|split; [reflexivity|exact (HQ2_upd m l rr new m' Hm Hq2 ltac:(lia) Hrn Hnew Eop)]]]].
       * constructor.
         -- unfold m'. cbn [adj atoms natoms]. now rewrite upd_length.
         -- unfold m'. cbn [counts atoms natoms]. now rewrite !upd_length.
@@ -781,7 +806,11 @@ Proof.
     assert (Hgrow : forall j y, In y (row m j) -> In y (row m' j)).
     { intros j y Hy. rewrite Hrow. destruct (Nat.eqb_spec j l) as [->|]; [apply Hinla; now right|].
       destruct (Nat.eqb_spec j rr) as [->|]; [apply Hinlb; now right|exact Hy]. }
-    split; [|split; [|split; reflexivity]].
+    assert (Enb : has_bond m l rr = false).
+    { unfold has_bond. replace (Nat.min l rr) with l by lia. replace (Nat.max l rr) with rr by lia. now rewrite Ef. }
+    assert (Eop : add_ring_bond m l rr order (r_ls r) (r_rs r) pl pr = Ok m').
+    { unfold add_ring_bond. rewrite Ela. fold ba. rewrite Ela'. cbn [bind]. rewrite Erow_rr. fold bb. rewrite Elb'. reflexivity. }
+    split; [|split; [|split; [reflexivity|split; [reflexivity|exact (HQ2_ring m l rr order (r_ls r) (r_rs r) pl pr m' Hm Hq2 ltac:(lia) Hrn Hord Enb Eop)]]]].
     + constructor.
       * unfold m'. cbn [adj atoms natoms]. now rewrite !upd_length.
       * unfold m'. cbn [counts atoms natoms]. now rewrite !upd_length.
@@ -816,24 +845,24 @@ Proof.
       * now apply Hmade.
 Qed.
 
-Lemma form_rings_good : forall rings m, MolWF m -> RingsOK m rings ->
-  exists m', form_rings m rings = Ok m' /\ MolWF m' /\ atoms m' = atoms m /\ roots m' = roots m.
+Lemma form_rings_good : forall rings m, MolWF m -> Q2 m -> RingsOK m rings ->
+  exists m', form_rings m rings = Ok m' /\ MolWF m' /\ atoms m' = atoms m /\ roots m' = roots m /\ Q2 m'.
 Proof.
-  intros rings m Hm Hr. unfold form_rings.
-  assert (G : forall rings m made, MolWF m -> MadeOK m made -> RingsOK m rings ->
+  intros rings m Hm Hq2 Hr. unfold form_rings.
+  assert (G : forall rings m made, MolWF m -> Q2 m -> MadeOK m made -> RingsOK m rings ->
               exists m' made', fold_left form_ring rings (Ok (m, made)) = Ok (m', made') /\
-                               MolWF m' /\ atoms m' = atoms m /\ roots m' = roots m).
-  { clear Hm Hr. clear m. clear rings. induction rings as [|r rings IH]; intros m made Hm Hmd Hr; [exists m, made; auto|].
+                               MolWF m' /\ atoms m' = atoms m /\ roots m' = roots m /\ Q2 m').
+  { clear Hm Hr Hq2. clear m. clear rings. induction rings as [|r rings IH]; intros m made Hm Hq2 Hmd Hr; [exists m, made; auto|].
     inversion Hr as [|? ? (A & B & C) Hr']; subst. cbn [fold_left].
-    pose proof (form_ring_good m made r Hm Hmd A B C) as G.
+    pose proof (form_ring_good m made r Hm Hq2 Hmd A B C) as G.
     destruct (form_ring (Ok (m, made)) r) as [[m1 made1]|e]; [|contradiction].
-    destruct G as (Hm1 & Hmd1 & Ea & Ero).
-    destruct (IH m1 made1 Hm1 Hmd1) as (m' & made' & E & Hm' & Ea' & Ero').
+    destruct G as (Hm1 & Hmd1 & Ea & Ero & Hq1).
+    destruct (IH m1 made1 Hm1 Hq1 Hmd1) as (m' & made' & E & Hm' & Ea' & Ero' & Hq').
     { eapply RingsOK_ext; [|exact Hr']. unfold natoms. rewrite Ea. lia. }
-    exists m', made'. split; [exact E|]. split; [exact Hm'|]. split; congruence. }
-  destruct (G rings m (repeat 0%nat (length (atoms m))) Hm) as (m' & made' & E & Hm' & Ea & Ero); [|exact Hr|].
+    exists m', made'. split; [exact E|]. split; [exact Hm'|]. split; [congruence|]. split; [congruence|exact Hq']. }
+  destruct (G rings m (repeat 0%nat (length (atoms m))) Hm Hq2) as (m' & made' & E & Hm' & Ea & Ero & Hq'); [|exact Hr|].
   - split; [now rewrite repeat_length|]. intros i Hi. rewrite nth_repeat. lia.
-  - rewrite E. cbn [bind]. eauto.
+  - rewrite E. cbn [bind]. eauto 6.
 Qed.
 
 (* ---------- the writer cannot fail on such a graph ---------- *)
@@ -912,13 +941,13 @@ Hypothesis Hq : exists c, assoc (lit "?") T = Some c.
 Hypothesis HP : forall t o st a cap, process_atom_symbol T t = Ok (Some (o, st, a, cap)) -> P a cap.
 
 Lemma derive_frags_good : forall attribute tfrags m rings aidx,
-  MolWF m -> RingsOK m rings -> Forall frag_ok tfrags ->
+  MolWF m -> Q2 m -> RingsOK m rings -> Forall frag_ok tfrags ->
   match derive_frags T attribute tfrags m rings aidx with
-  | Ok (m', rings') => MolWF m' /\ RingsOK m' rings'
+  | Ok (m', rings') => MolWF m' /\ RingsOK m' rings' /\ Q2 m'
   | Err e => e = DecoderError
   end.
 Proof.
-  intros attribute. induction tfrags as [|[ts bad] rest IH]; intros m rings aidx Hm Hr Hf; [cbn; auto|].
+  intros attribute. induction tfrags as [|[ts bad] rest IH]; intros m rings aidx Hm Hq2 Hr Hf; [cbn; auto|].
   inversion Hf as [|? ? [Hb Ht] Hrest]; subst. cbn [fst snd] in *.
   unfold derive_frags. cbn [derive_frags_c]. fold (derive_frags_c (get_bonding_capacity T)).
   pose proof (derive_good T Hq bad Hb aidx HP (S (length ts)) (enumerate_from 0 ts) m None 0 PNone rings
@@ -932,7 +961,7 @@ Proof.
       - split; [lia|]. intro; lia.
       - unfold toks_ok. apply Forall_forall. intros it Hin. rewrite Forall_forall in Ht. apply Ht.
         rewrite <- (enumerate_from_snd ts 0%nat). now apply in_map. }
-    destruct PP as (Hm2 & Hr2 & _ & _). apply (IH m2 rings2 (aidx + n)%nat Hm2 Hr2 Hrest).
+    destruct PP as (Hm2 & Hr2 & _ & _ & Hq22). apply (IH m2 rings2 (aidx + n)%nat Hm2 Hq22 Hr2 Hrest).
   - apply G; auto.
     + rewrite enumerate_from_length. lia.
     + split; [lia|]. intro; lia.
@@ -960,13 +989,13 @@ Definition frags_ok (s : str) (compat : bool) : Prop := Forall frag_ok (tokenize
 (* C01 (graph level): whatever the decoder derives, the graph is well formed and
    no atom's bond count exceeds its capacity under the table in force *)
 Theorem decode_graph_wf_c : forall s compat attribute m, frags_ok s compat ->
-  decode_graph T s compat attribute = Ok m -> MolWF m.
+  decode_graph T s compat attribute = Ok m -> MolWF m /\ Q2 m.
 Proof.
   intros s compat attribute m Hd E. unfold decode_graph, decode_graph_c in E.
-  pose proof (derive_frags_good attribute (tokenize_all s compat) empty_mol [] 0%nat wf_empty (Forall_nil _) Hd) as G.
+  pose proof (derive_frags_good attribute (tokenize_all s compat) empty_mol [] 0%nat wf_empty HQ2_0 (Forall_nil _) Hd) as G.
   unfold derive_frags in G.
   destruct (derive_frags_c (get_bonding_capacity T) attribute (tokenize_all s compat) empty_mol [] 0) as [[m1 rings]|e]; cbn [bind] in E; [|discriminate].
-  destruct G as [Hm1 Hr1]. destruct (form_rings_good rings m1 Hm1 Hr1) as (m' & E' & Hm' & _). rewrite E' in E. now inversion E; subst.
+  destruct G as (Hm1 & Hr1 & Hq1). destruct (form_rings_good rings m1 Hm1 Hq1 Hr1) as (m' & E' & Hm' & _ & _ & Hq'). rewrite E' in E. inversion E; subst. auto.
 Qed.
 
 (* C08: the decoder returns or raises DecoderError *)
@@ -974,16 +1003,16 @@ Theorem decoder_total_c : forall s compat attribute, frags_ok s compat ->
   (exists out, decoder T s compat attribute = Ok out) \/ decoder T s compat attribute = Err DecoderError.
 Proof.
   intros s compat attribute Hd. unfold decoder, decoder_c, decode_graph_c.
-  pose proof (derive_frags_good attribute (tokenize_all s compat) empty_mol [] 0%nat wf_empty (Forall_nil _) Hd) as G.
+  pose proof (derive_frags_good attribute (tokenize_all s compat) empty_mol [] 0%nat wf_empty HQ2_0 (Forall_nil _) Hd) as G.
   unfold derive_frags in G.
   destruct (derive_frags_c (get_bonding_capacity T) attribute (tokenize_all s compat) empty_mol [] 0) as [[m1 rings]|e]; cbn [bind].
-  - destruct G as [Hm1 Hr1]. destruct (form_rings_good rings m1 Hm1 Hr1) as (m' & E' & Hm' & _). rewrite E'. cbn [bind].
+  - destruct G as (Hm1 & Hr1 & Hq1). destruct (form_rings_good rings m1 Hm1 Hq1 Hr1) as (m' & E' & Hm' & _). rewrite E'. cbn [bind].
     left. apply (mol_to_smiles_ok m' Hm').
   - right. now rewrite G.
 Qed.
 
 Theorem decode_graph_wf : forall s attribute m, digits_ok s ->
-  decode_graph T s false attribute = Ok m -> MolWF m.
+  decode_graph T s false attribute = Ok m -> MolWF m /\ Q2 m.
 Proof. intros s attribute m Hd. apply decode_graph_wf_c. now apply tokenize_all_ok. Qed.
 
 Theorem decoder_total : forall s attribute, digits_ok s ->
